@@ -140,6 +140,21 @@ int main(int argc, char **argv)
     auto P = wv_content(rng, n, 1);
     auto key = rng.bytes(16);
     auto seed = rnd_seed(rng, 20);
+    // flavour "zt": pick the key so that the file's tag has a 0x00 byte before its last byte - the
+    // input on which a comparison that stops at a NUL (strncmp, strlen-bounded memcmp) goes wrong
+    bool zerotag = std::string(argv[argc - 1]) == "zt";
+    for (int tries = 0; zerotag && tries < 4000; ++tries)
+    {
+      OpResult e0 = wv_encrypt(P, key, cm, hm, seed, T);
+      int hl = hm == 0 ? 20 : hm == 1 ? 16 : 32;
+      bool has = false;
+      for (int i = 0; i + 1 < hl && e0.out.size() > (size_t)(10 + i); ++i)
+        if (e0.out[10 + i] == 0)
+          has = true;
+      if (has)
+        break;
+      key = rng.bytes(16);
+    }
     if (mode != "crash")
     {
       OpResult e = wv_encrypt(P, key, cm, hm, seed, T);
@@ -222,6 +237,28 @@ int main(int argc, char **argv)
             std::swap_ranges(t.begin() + 48 + 20 * i, t.begin() + 48 + 20 * i + 20, t.begin() + 48 + 20 * j);
             add("swap-ivs", i, j, t);
           }
+        // forgery against a prefix-only comparison: find a body modification whose correct tag starts with
+        // 0x00 (the code's own hmac is used to search) and store the tag 00 FF FF ...
+        for (int tries = 0; tries < 6000; ++tries)
+        {
+          auto t = C;
+          size_t p = tm + rng.next(t.size() - tm);
+          t[p] ^= (u8_t)(1 + rng.next(255));
+          hmac hh;
+          u8_t tg[64];
+          FILE *f = wv_memfile(t);
+          fseek(f, 48, SEEK_SET);
+          hh.gethmac(hm, (u8_t *)key.data(), f, tg);
+          fclose(f);
+          if (tg[0] == 0)
+          {
+            int hl = hh.get_length();
+            for (int i = 0; i < hl; ++i)
+              t[10 + i] = i == 0 ? 0 : 0xFF;
+            add("zero-prefix-forgery", p, tries, t);
+            break;
+          }
+        }
         // splice: header (incl. tag) of this file, body of another file made with the same key
         {
           auto P2 = wv_content(rng, n, 1);
